@@ -723,8 +723,12 @@ fn expected_removed(store: &AnnotationStore, line: &str) -> Option<(BTreeSet<usi
 // script generation
 // ---------------------------------------------------------------------------------------------
 
-struct Gen {
-    rng: Rng,
+pub struct Gen {
+    pub rng: Rng,
+    /// draw values of every type (serialisation families)
+    pub rich: bool,
+    /// give every annotation and every data item a public id (no temporary ids in serialisations)
+    pub force_ids: bool,
     res: Vec<(String, usize)>,
     sets: Vec<String>,
     keys: Vec<String>,
@@ -735,6 +739,9 @@ struct Gen {
 }
 
 impl Gen {
+    pub fn new(seed: u64) -> Self {
+        Gen { rng: Rng::new(seed), rich: false, force_ids: false, res: vec![], sets: vec![], keys: vec![], anns: vec![], nann: 0, data_ids: vec![], next_id: 0 }
+    }
     fn pick_res(&mut self) -> String {
         if self.res.is_empty() || self.rng.chance(6) { "nores".into() } else { self.rng.pick(&self.res).0.clone() }
     }
@@ -831,8 +838,19 @@ impl Gen {
             return format!("{}/~/~/nodata", set);
         }
         let key = format!("k{}", self.rng.below(3));
-        let val = if self.rng.chance(50) { format!("s:v{}", self.rng.below(3)) } else { format!("i:{}", self.rng.below(3)) };
-        if self.rng.chance(15) {
+        let val = match self.rng.below(if self.rich { 12 } else { 2 }) {
+            0 => format!("s:v{}", self.rng.below(3)),
+            1 => format!("i:{}", self.rng.below(3)),
+            2 => "n".to_string(),
+            3 => format!("b:{}", self.rng.below(2)),
+            4 => format!("f:{}", self.rng.range(-9, 9)),
+            5 => format!("d:{}", 1_600_000_000 + self.rng.below(1000) as i64),
+            6 => format!("l:i:{}|s:v{}|f:{}", self.rng.below(3), self.rng.below(3), self.rng.below(8)),
+            7 => format!("s:{}", ["\u{e9}t\u{e9}", "\u{1F600}", "q\"uote", "back\\slash", "semi;colon", "comma,x", "tab\tx"][self.rng.below(7)].replace(' ', "_")),
+            8 => format!("i:{}", -(self.rng.below(1000) as i64)),
+            _ => format!("s:v{}", self.rng.below(3)),
+        };
+        if self.force_ids || self.rng.chance(15) {
             self.next_id += 1;
             let id = format!("d{}", self.next_id);
             self.data_ids.push((set.clone(), id.clone()));
@@ -842,7 +860,7 @@ impl Gen {
             format!("{}/{}/{}", set, key, val)
         }
     }
-    fn op(&mut self) -> String {
+    pub fn op(&mut self) -> String {
         let c = self.rng.below(100);
         if self.res.is_empty() || c < 6 {
             let id = if !self.res.is_empty() && self.rng.chance(15) { self.res[0].0.clone() } else { format!("r{}", self.res.len()) };
@@ -867,7 +885,7 @@ impl Gen {
             return format!("st adddata {} {} {} {}", p[0], p.get(3).unwrap_or(&"~"), p[1], p[2]);
         }
         if c < 72 {
-            let id = if self.rng.chance(70) {
+            let id = if self.force_ids || self.rng.chance(70) {
                 if !self.anns.is_empty() && self.rng.chance(6) { self.rng.pick(&self.anns).clone() } else { format!("a{}", self.nann) }
             } else { "~".into() };
             let target = self.target();
@@ -894,7 +912,7 @@ impl Gen {
 /// scripted openings that set up the shapes removals are sensitive to (vocabulary-only datasets with
 /// metadata annotations, shared and repeated data, diamonds of annotations on annotations, complex
 /// selectors across resources); random operations follow
-fn scenario(g: &mut Gen) -> Vec<String> {
+pub fn scenario(g: &mut Gen) -> Vec<String> {
     let mut v: Vec<String> = vec![];
     let n0 = 4 + g.rng.below(6);
     let n1 = 4 + g.rng.below(6);
@@ -1253,7 +1271,7 @@ pub fn run(opts: &Opts) -> Report {
         }
     }
     for i in 0..nscripts {
-        let mut g = Gen { rng: Rng::new(opts.seed.wrapping_mul(1_000_003).wrapping_add(i as u64)), res: vec![], sets: vec![], keys: vec![], anns: vec![], nann: 0, data_ids: vec![], next_id: 0 };
+        let mut g = Gen { rng: Rng::new(opts.seed.wrapping_mul(1_000_003).wrapping_add(i as u64)), rich: false, force_ids: false, res: vec![], sets: vec![], keys: vec![], anns: vec![], nann: 0, data_ids: vec![], next_id: 0 };
         let n = 4 + g.rng.below(maxops);
         let mut script: Vec<String> = if i % 4 == 3 { scenario(&mut g) } else { vec![] };
         if !script.is_empty() {
@@ -1273,7 +1291,7 @@ pub fn run(opts: &Opts) -> Report {
     if property.map(|p| p == "C03").unwrap_or(true) {
         let n03 = if opts.thorough() { 3000 } else { 400 };
         for i in 0..n03 {
-            let mut g = Gen { rng: Rng::new(opts.seed.wrapping_mul(7_000_003).wrapping_add(i as u64)), res: vec![], sets: vec![], keys: vec![], anns: vec![], nann: 0, data_ids: vec![], next_id: 0 };
+            let mut g = Gen { rng: Rng::new(opts.seed.wrapping_mul(7_000_003).wrapping_add(i as u64)), rich: false, force_ids: false, res: vec![], sets: vec![], keys: vec![], anns: vec![], nann: 0, data_ids: vec![], next_id: 0 };
             let n = 4 + g.rng.below(24);
             let mut script: Vec<String> = (0..n).map(|_| g.op()).collect();
             match g.rng.below(6) {
